@@ -379,3 +379,36 @@ func isParamOrCell(s *px.Sym, p *ssa.Parameter) bool {
 	s = s.Strip(false)
 	return s != nil && s.Kind == px.KLoad && s.X != nil && s.X.Kind == px.KAlloc && allocName(s.X) == p.Name()
 }
+
+// fieldByRole resolves a struct field by what it is (its type), not by its spelling, so that a
+// renamed private field is still found: the unique field of pkg.typ whose type satisfies pred.
+// Falls back to the given name when the role is not unique.
+func (c *Ctx) fieldByRole(pkg, typ, fallback string, pred func(t types.Type) bool) string {
+	pk := c.P.Pkg(pkg)
+	if pk == nil || pk.Types == nil {
+		return fallback
+	}
+	tn, _ := pk.Types.Scope().Lookup(typ).(*types.TypeName)
+	if tn == nil {
+		return fallback
+	}
+	st, _ := tn.Type().Underlying().(*types.Struct)
+	if st == nil {
+		return fallback
+	}
+	found := ""
+	for i := 0; i < st.NumFields(); i++ {
+		if pred(st.Field(i).Type()) {
+			if found != "" {
+				return fallback
+			}
+			found = st.Field(i).Name()
+		}
+	}
+	if found == "" {
+		return fallback
+	}
+	return found
+}
+
+func isMapType(t types.Type) bool { _, ok := t.Underlying().(*types.Map); return ok }
